@@ -42,4 +42,17 @@ def IsHandshake (t : Nat) : Bool :=
   ((t &&& 0x3F) == packet.Handshake)
 end packet.Type
 
+namespace Skel
+def C01_ReadPacket : List String := ["acquireReadLock", "defer readLock.Unlock", "readPacketType", "readPacketBodySize", "readPacketBody", "decompressData", "json.Unmarshal"]
+def C01_WritePacket : List String := ["acquireWriteLock", "defer writeLock.Unlock", "writer.Write", "json.Marshal", "compressData", "writer.Write", "writeRateLimitedData", "writer.Write"]
+end Skel
+
+namespace Cond
+def C01_ReadPacket : List String := ["err := ps.acquireReadLock(); err != nil", "err != nil", "packetType.IsHeartbeat()", "err != nil", "err != nil", "packetType.IsEncrypted()", "packetType.IsCompressed()", "err != nil", "packetType.IsJsonCommand() || packetType.IsCommandResp()", "err != nil"]
+def C01_decompressData : List String := ["estimatedSize > constants.MaxPacketBodySize", "err != nil", "n > int64(constants.MaxPacketBodySize)"]
+def C01_readPacketBody : List String := ["bodySize > constants.MaxPacketBodySize", "err != nil"]
+def C01_readPacketBodySize : List String := ["_, err := io.ReadFull(ps.reader, sizeBuffer[:constants.PacketBodySizeBytes]); err != nil"]
+def C01_readPacketType : List String := ["err != nil", "n != constants.PacketTypeSize"]
+end Cond
+
 end Gen
